@@ -147,6 +147,12 @@ def cases(sh, tier):
                 for tol in (step / 2.0, step / 8.0, float("inf")):
                     for sp in ("read", "read_nc", "nloc" if tol == float("inf") else "read"):
                         yield {"part": "read", "ds": did, "var": v, "idx": {d: ["s", q]}, "mode": "label", "sp": sp, "tol": tol}
+            # the tolerance together with an index on a str axis of the same variable (in memory the tolerance is ignored there)
+            for d2 in dims:
+                if LABELS[d2][0] == "O":
+                    for sp in ("read", "read_nc"):
+                        yield {"part": "read", "ds": did, "var": v, "idx": {d: ["s", lab[0] + step / 4.0], d2: ["s", LABELS[d2][1][0]]}, "mode": "label", "sp": sp, "tol": step / 2.0}
+                        yield {"part": "read", "ds": did, "var": v, "idx": {d2: ["l", [LABELS[d2][1][-1]]]}, "mode": "label", "sp": sp, "tol": step / 2.0}
 
 
 def state_key(case):
@@ -476,6 +482,10 @@ def write_events(kind):
         ev.append(["set", "b", "position", {"x": ["sl", None, 2, None]}, "scalar"])
         ev.append(["set", "b", "label", {"x": ["full"]}, "dimarray"])
         ev.append(["set", "s", "label", {}, "scalar"])
+        # the assigned value is a DimArray that carries OTHER labels and metadata of its own (a piece cut out of another array): in memory an
+        # assignment takes its values only - the labels and the metadata of the target stay what they are
+        ev.append(["set", "a", "label", {"x": ["l", [20, 30]]}, "dimarray_other"])
+        ev.append(["set", "b", "position", {"x": ["l", [1, 0]]}, "dimarray_other"])
     else:
         ev.append(["append", "v", 1, "dimarray"])
         ev.append(["append", "v", 2, "dimarray"])
@@ -489,6 +499,9 @@ def write_events(kind):
         ev.append(["set", "v", "label", {"time": ["s", 2000.0], "x": ["l", [20, 30]]}, "array"])
         ev.append(["set", "v", "label", {"x": ["s", 10]}, "scalar"])
         ev.append(["set", "t1", "position", {"time": ["s", 0]}, "scalar"])
+        ev.append(["set", "v", "position", {"time": ["l", [1, 0]]}, "dimarray_other"])
+        ev.append(["set", "v", "position", {"time": ["sl", 0, 2, None]}, "dimarray_other"])
+        ev.append(["set", "t1", "position", {"time": ["l", [1]]}, "dimarray_other"])
     ev.append(["reopen"])
     return ev
 
@@ -605,6 +618,11 @@ class WSpace(object):
                         shape = sel.shape if isinstance(sel, DimArray) else ()
                         if rk == "dimarray":
                             rhsv = DimArray(_rhs("array", shape, n), axes=[ax.copy() for ax in sel.axes]) if isinstance(sel, DimArray) else _rhs("scalar", (), n)
+                        elif rk == "dimarray_other":
+                            other = [Axis(np.array([(l + "_") if isinstance(l, str) else (l + 1 if isinstance(l, int) else l + 0.5) for l in py(ax.values)],
+                                                   dtype=ax.values.dtype), ax.name) for ax in sel.axes]
+                            rhsv = DimArray(_rhs("array", shape, n), axes=other)
+                            rhsv.attrs.update({"units": "units-of-the-piece", "note": "piece"})
                         else:
                             rhsv = _rhs(rk, shape, n)
                         dims = list(m.dims)
@@ -640,6 +658,8 @@ class WSpace(object):
                     mm = same_result(got, m, "after {}: variable {} read back ({})".format(hist[1:], v, stage))
                     if mm:
                         return bad(mm)
+                    if isinstance(got, DimArray) and common.freeze(dict(got.attrs)) != common.freeze(dict(m.attrs)):
+                        return bad("after {}: metadata of variable {} read back ({}) is {} but in memory {}".format(hist[1:], v, stage, dict(got.attrs), dict(m.attrs)))
                     if stage == "handle" and m.ndim:
                         # the variable handles kept since the file was opened (each already used for a label look-up then) must see the
                         # current labels: whole read, and a label-mode read of the LAST label of every dimension
